@@ -14,12 +14,12 @@ namespace Pfdl.Props.C12
 open Pfdl Pfdl.Syntax
 
 /-- **The model is the image of the text**: reading the tokens of a model gives that model back. -/
-theorem model_is_image_of_text (sty : String → String → LitStyle) (ds : List Def) (hok : ∀ d ∈ ds, d.Ok) :
+theorem model_is_image_of_text (sty : Style) (ds : List Def) (hok : ∀ d ∈ ds, d.Ok) :
     parse (prDefs sty ds) = some ds :=
   parse_print sty ds hok
 
 /-- **Nothing is merged, dropped or reordered**: two different models never have the same text. -/
-theorem different_models_different_text (sty : String → String → LitStyle) (ds ds' : List Def)
+theorem different_models_different_text (sty : Style) (ds ds' : List Def)
     (hok : ∀ d ∈ ds, d.Ok) (hok' : ∀ d ∈ ds', d.Ok) (h : prDefs sty ds = prDefs sty ds') : ds = ds' := by
   have h1 := parse_print sty ds hok
   have h2 := parse_print sty ds' hok'
@@ -29,7 +29,7 @@ theorem different_models_different_text (sty : String → String → LitStyle) (
 
 /-- **Placement of struct literals is layout**: on the line of the struct name, on the next line, or indented
     below it – the model is the same. -/
-theorem literal_placement_irrelevant (sty sty' : String → String → LitStyle) (ds : List Def)
+theorem literal_placement_irrelevant (sty sty' : Style) (ds : List Def)
     (hok : ∀ d ∈ ds, d.Ok) : parse (prDefs sty ds) = parse (prDefs sty' ds) := by
   rw [parse_print sty ds hok, parse_print sty' ds hok]
 
@@ -48,7 +48,7 @@ def stmtLine : Stmt → Nat
   | .cloop _ _ _ _ l => l
   | .cond _ _ _ l => l
 
-theorem statement_line_is_first_token (sty : String → String → LitStyle) (s : Stmt) :
+theorem statement_line_is_first_token (sty : Style) (s : Stmt) :
     ((prStmt sty s).head?).map (·.line) = some (stmtLine s) := by
   cases s with
   | svc c => simp [prStmt, stmtLine, t]
@@ -60,12 +60,12 @@ theorem statement_line_is_first_token (sty : String → String → LitStyle) (s 
 
 /-! a concrete model with every kind of construct meets the hypotheses (the theorems are not vacuous) -/
 
-def exStyle : String → String → LitStyle := fun s _ => if s == "S" then .indented else .nextLine
+def exStyle : Style := fun s _ => if s == "S" then .indented else .nextLine
 
 def exModel : List Def := [
   .struct ⟨"S", [("a", ⟨.prim "number", none⟩), ("b", ⟨.struct "T", some (.int 3)⟩)], 1⟩,
   .task ⟨"productionTask", [("x", ⟨.struct "S", none⟩)],
-    [.svc ⟨"A", [.var "x", .path "x" [("a", none), ("b", some (.name "i"))], .lit "S" "{}", .lit "T" "{\"k\":1}"],
+    [.svc ⟨"A", [.var "x", .path "x" [("a", none), ("b", some (.name "i"))], .lit "S" [], .lit "T" [("\"k\"", .num "1"), ("\"l\"", .arr [.bool true, .obj [("\"m\"", .str "\"x\"")]])]],
         [("y", ⟨.struct "S", some .none⟩)], 7⟩,
      .cloop true "i" (.int 3) [.call ⟨"t", [], [], 9⟩] 8,
      .cond (.bin "<" (.path ["x", "a"]) (.lit (.num 3 false))) [.svc ⟨"B", [], [], 12⟩]
